@@ -151,14 +151,15 @@ def b_stop_before_flush(ctx):
 def c_end_marker(ctx, tok, push):
     """`push_chunk` takes "" / None for the end of the stream.  So no DATA token may arrive there as "" or None: on_llm_new_token drops empty tokens on every call (not only the
     first) and falls back to the token text when the model passes no chunk object (F122)."""
-    skips = [i for i in ast.walk(tok) if isinstance(i, ast.If) and any(atom_key(a_)[0] in ("'' == token", "token == ''") or re.sub(r"\s", "", src(a_)) in ("nottoken", "token==''", 'token==""')
-                                                                       for a_ in atoms(i.test))
-             and any(isinstance(x, ast.Return) for st in i.body + i.orelse for x in ast.walk(st))]
-    uncond = [i for i in skips if not any(isinstance(p_, ast.If) and "first_token" in src(p_.test) for p_ in _anc(i, tok)) and "first_token" not in src(i.test)]
-    ctx.check("C18.c.end-marker", STREAM, "StreamingHandler.on_llm_new_token", "empty data tokens are dropped", bool(uncond),
-              "an empty token is dropped whenever it arrives" if uncond else
-              "only a FIRST empty token is dropped (the skip is tied to `first_token`): any later empty token reaches push_chunk as \"\" and ends the stream - the rest of the text is "
-              "lost, depending on where the tokeniser emits empty tokens", line=(skips[0].lineno if skips else tok.lineno))
+    # path-sensitive: with an empty token no call of push_chunk is reachable (whatever else is tested on the way, e.g. a first-token flag)
+    cfg = CFG(tok)
+    push_nodes = [n for n in cfg.nodes if n.ast is not None and any(isinstance(c, ast.Call) and src(c.func) == "self.push_chunk" for c in walk_no_nested(n.ast))]
+    reach = cfg.reachable_under([cfg.entry], {"token == ''": True})
+    leak = [n for n in push_nodes if n in reach]
+    ctx.check("C18.c.end-marker", STREAM, "StreamingHandler.on_llm_new_token", "empty data tokens are dropped", bool(push_nodes) and not leak,
+              "an empty token never reaches push_chunk" if push_nodes and not leak else
+              "an empty token can reach push_chunk (only a FIRST empty token is dropped): it arrives there as \"\" - the end marker - and ends the stream; the rest of the text is "
+              "lost, depending on where the tokeniser emits empty tokens", line=(leak[0].line if leak else tok.lineno))
     pushes = [c for c in ast.walk(tok) if isinstance(c, ast.Call) and src(c.func) == "self.push_chunk" and c.args]
     uses_token = any(any(isinstance(x, ast.Name) and x.id == "token" for x in ast.walk(c.args[0])) for c in pushes) or any(
         isinstance(a, ast.Assign) and "chunk" in src(a.targets[0]) and any(isinstance(x, ast.Name) and x.id == "token" for x in ast.walk(a.value)) for a in ast.walk(tok))
